@@ -159,6 +159,13 @@ def random_config(rng, uid):
         actors.append(spec)
     for c in range(ncol):
         actors.append({"kind": "col", "rounds": rng.randint(1, 3)})
+    # batch numbers as a long submission has them: several digits, 9/10 and 99/100 next to each other
+    off = rng.choice([0, 0, 8, 9, 98, 1233])
+    if off:
+        for spec in actors:
+            for r in spec.get("rows", []):
+                if r["batch"] is not None:
+                    r["batch"] += off
     rng.shuffle(actors)
     actors.append({"kind": "col", "rounds": 1, "final": True})
     return {"actors": actors}
